@@ -7,14 +7,16 @@ Property theorems only (model: `Qx/Model/C14Stun.lean`, helpers: `Qx/Proofs/C14.
 
 Conventions.  `H : Bytes → Bytes` is the hash function, a *parameter* of every statement (the driver and the
 real code use SHA-1, `sha1_gives_20_bytes` shows SHA-1 meets the only hypothesis ever made about `H`: 20-byte
-digests).  `hmacCode H 64` is the HMAC *as QXmppUtils.cpp computes it*, `hmacRfc H 64` is RFC 2104.  `decodeX` is
+digests).  `hmacCode H 64` is the HMAC *as QXmppUtils.cpp computes it* (since /repo commit a1928fd: keys longer than a
+block are hashed first), `hmacRfc H 64` is RFC 2104; `hmac_code_eq_rfc` shows they are the same function.  `decodeX` is
 `decode` together with what the decoder verified on the way: `miAt = some off` iff it met a MESSAGE-INTEGRITY
 attribute at body offset `off` (the C++ flag `after_integrity`), `fpAt = some off` iff it returned at a FINGERPRINT
 attribute at body offset `off`.  All statements hold for every message / packet / key of any length.
 
 The half "decoding arbitrary bytes never crashes or reads out of bounds" is a runtime matter: `decode` is a
 total function here; the C++ is exercised on random, structured and mutated packets with the library built under
-ASan/UBSan (see props/C14.py).  What *can* be said statically is said by `C14_defect_attr_length_beyond_buffer`.
+ASan/UBSan (see props/C14.py).  What *can* be said statically is said by `decode_accepted_fits`: since /repo commit
+df53ac0 no accepted packet has an attribute value reaching beyond the packet.
 -/
 namespace Qx.C14
 open Qx Qx.Bytes Qx.Crypto Qx.Generated
@@ -94,12 +96,12 @@ theorem encode_mi_is_hmac (H : Bytes → Bytes) (hH : ∀ x, (H x).length = 20) 
   have hd := decodeX_encode H hH m h k fp
   exact (decodeX_verified H _ k _ hd).1 _ (by simp [hk]) hk
 
-/-- **…which is the RFC 2104 HMAC for keys of at most 64 bytes.**  (For longer keys see `C14_defect_hmac_long_key`.) -/
-theorem encode_mi_is_rfc_hmac_of_short_key (H : Bytes → Bytes) (hH : ∀ x, (H x).length = 20) (m : Msg) (h : WFMsg m)
-    (k : Bytes) (hk : k ≠ []) (hlen : k.length ≤ 64) (fp : Bool) :
+/-- **…which is the RFC 2104 HMAC, for keys of every length** (RFC 5389 §15.4). -/
+theorem encode_mi_is_rfc_hmac (H : Bytes → Bytes) (hH : ∀ x, (H x).length = 20) (m : Msg) (h : WFMsg m)
+    (k : Bytes) (hk : k ≠ []) (fp : Bool) :
     miValueAt (encode H m k fp) (body m).length =
       hmacRfc H 64 k (miInputAt (encode H m k fp) (body m).length) := by
-  rw [(encode_mi_is_hmac H hH m h k hk fp).2, hmacCode_eq_rfc H 64 k _ hlen]
+  rw [(encode_mi_is_hmac H hH m h k hk fp).2, hmacCode_eq_rfc_20 H hH]
 
 /-- **FINGERPRINT is CRC-32 xor 0x5354554e.**  When asked for, the attribute `80 28 00 04` is the last 8 bytes of the
 packet and its value is the bitwise-defined CRC-32 (reflected polynomial 0xEDB88320, initial value and final xor
@@ -137,11 +139,11 @@ theorem decode_accepts_only_verified_mi (H : Bytes → Bytes) (b k : Bytes) (d :
     miValueAt b off = hmacCode H 64 k (miInputAt b off) :=
   (decodeX_verified H b k d hdec).1 off hmi hk
 
-/-- …and in RFC 2104 terms when the key is at most one block long. -/
-theorem decode_accepts_only_rfc_verified_mi (H : Bytes → Bytes) (b k : Bytes) (d : Decoded) (off : Nat)
-    (hdec : decodeX H b k = some d) (hk : k ≠ []) (hlen : k.length ≤ 64) (hmi : d.miAt = some off) :
+/-- …and in RFC 2104 terms, for keys of every length. -/
+theorem decode_accepts_only_rfc_verified_mi (H : Bytes → Bytes) (hH : ∀ x, (H x).length = 20) (b k : Bytes)
+    (d : Decoded) (off : Nat) (hdec : decodeX H b k = some d) (hk : k ≠ []) (hmi : d.miAt = some off) :
     miValueAt b off = hmacRfc H 64 k (miInputAt b off) := by
-  rw [decode_accepts_only_verified_mi H b k d off hdec hk hmi, hmacCode_eq_rfc H 64 k _ hlen]
+  rw [decode_accepts_only_verified_mi H b k d off hdec hk hmi, hmacCode_eq_rfc_20 H hH]
 
 /-- **Accepted with FINGERPRINT ⇒ the CRC verified** (whatever the key): the 32 bits equal the bitwise CRC-32 of the
 bytes before the attribute (length field adjusted) xor 0x5354554e. -/
@@ -188,75 +190,60 @@ example (H : Bytes → Bytes) (hH : ∀ x, (H x).length = 20) :
   ⟨_, decodeX_encode H hH exampleMsg wf_example [7] true, by decide, by simp, by simp⟩
 
 /-- **Defect (bit flips).**  "Flipping any bit of the protected bytes makes decoding fail" is false: there are a
-well-formed message, a key and a bit inside the bytes protected by MESSAGE-INTEGRITY (bit 6 of byte 23, the low byte of
-USERNAME's length field, 4 → 68) such that the flipped packet is accepted under the same key, for every hash function.
-The enlarged length swallows MESSAGE-INTEGRITY, the loop never compares an attribute length with what is left in the
-packet, and nothing requires MESSAGE-INTEGRITY to be present when a key is given — so `decode_accepts_only_verified_mi`
-has nothing to say (`miAt = none`).  Replayed on the implementation as `C14:bitflip-accepted`. -/
+well-formed message, a key and a bit inside the bytes protected by MESSAGE-INTEGRITY (bit 5 of byte 23, the low byte of
+an empty USERNAME's length field, 0 → 32) such that the flipped packet is accepted under the same key, for every hash
+function.  The enlarged attribute swallows exactly MESSAGE-INTEGRITY and FINGERPRINT (its value still ends inside the
+body, so the bounds check of /repo commit df53ac0 passes), and nothing requires MESSAGE-INTEGRITY to be present when a
+key is given — so `decode_accepts_only_verified_mi` has nothing to say (`miAt = none`).  Callers that need authentication
+have to check for the attribute themselves (ICE does since /repo commit f41aa68).  Replayed on the implementation as
+`C14:bitflip-accepted`. -/
 theorem C14_defect_bitflip_accepted :
     ¬ (∀ (H : Bytes → Bytes), (∀ x, (H x).length = 20) → ∀ (m : Msg), WFMsg m → StrsOK m → ∀ (k : Bytes), k ≠ [] →
-        ∀ (i : Nat), i / 8 < Stun.headerSize + (body m).length →
-          decode H (flipBit (encode H m k false) i) k = none) := by
+        ∀ (fp : Bool) (i : Nat), i / 8 < Stun.headerSize + (body m).length →
+          decode H (flipBit (encode H m k fp) i) k = none) := by
   intro hall
   have hwf : WFMsg bitflipMsg := by constructor <;> decide +kernel
-  have h1 := hall sha1 sha1_length bitflipMsg hwf (by decide) [1] (by decide) 190 (by decide)
+  have h1 := hall sha1 sha1_length bitflipMsg hwf (by decide) [1] (by decide) true 189 (by decide)
   have h2 := bitflip_accepted sha1 sha1_length
   rw [h1] at h2
   exact absurd h2 (by decide)
 
-/-- **Defect (attribute length beyond the buffer).**  The 28-byte packet whose only attribute is DATA announcing 1000
-bytes while 4 are present is accepted (for every hash function, no key), `data()` has 1000 bytes, although the
-attribute does not fit into the packet (`tlvFits = false`).  In C++ the 996 bytes that were not overwritten are
-uninitialised heap memory (`m_data.resize(a_length)`, valgrind: QXmppStun.cpp:610); the same holds for NONCE and, for
-the fixed-size attributes, RESERVATION-TOKEN, ICE-CONTROLLING, ICE-CONTROLLED and IPv6 addresses at the end of a truncated
-packet.  Replayed on the implementation as `C14:attr-length-beyond-buffer`. -/
-theorem C14_defect_attr_length_beyond_buffer (H : Bytes → Bytes) :
-    ∃ m, decode H overrunPacket [] = some m ∧ m.data.map List.length = some 1000 ∧
-      overrunPacket.length = 28 ∧ tlvFits overrunPacket = false :=
-  ⟨overrunResult, overrun_decodes H, overrun_length, by decide, by decide⟩
+/-- **Accepted ⇒ every attribute lies inside the packet.**  Whatever the bytes and the key: if `decode` accepts, the TLV
+walk over the packet (up to the first FINGERPRINT, where the decoder returns) finds every attribute header and every
+attribute value completely inside the packet — so no `readRawData` was short and no value holds bytes that did not
+come from the packet (before /repo commit df53ac0, DATA announcing 1000 bytes with 4 present was accepted with 996
+bytes of uninitialised memory; that packet is replayed first by the harness under `C14:attr-length-beyond-buffer`). -/
+theorem decode_accepted_fits (H : Bytes → Bytes) (b k : Bytes) (d : Decoded) (hdec : decodeX H b k = some d) :
+    tlvFits b = true :=
+  decodeX_fits H b k d hdec
+
+/-- the same for `decode` -/
+theorem decode_some_fits (H : Bytes → Bytes) (b k : Bytes) (m : Msg) (hdec : decode H b k = some m) :
+    tlvFits b = true := by
+  unfold decode at hdec
+  cases hd : decodeX H b k with
+  | none => rw [hd] at hdec; simp at hdec
+  | some d => exact decodeX_fits H b k d hd
+
+/-- the old witness is rejected now: DATA announcing 1000 bytes with 4 present -/
+example (H : Bytes → Bytes) :
+    decode H [0x00, 0x01, 0x00, 0x08, 0x21, 0x12, 0xa4, 0x42, 0, 0, 0, 0, 0, 0, 0, 0, 0, 0, 0, 0,
+      0x00, 0x13, 0x03, 0xe8, 0x41, 0x42, 0x43, 0x44] [] = none := by
+  cases hd : decode H _ [] with
+  | none => rfl
+  | some m => exact absurd (decode_some_fits H _ [] m hd) (by decide)
 
 /-! ## The hand-written HMAC against RFC 2104 -/
 
-/-- **Keys of at most one block: the code's HMAC is RFC 2104**, for every hash function and block size. -/
-theorem hmac_code_eq_rfc_of_le (H : Bytes → Bytes) (B : Nat) (k t : Bytes) (h : k.length ≤ B) :
+/-- **The code's HMAC is RFC 2104 HMAC for keys of every length**, for every hash function whose digest is not longer
+than the block (the case for every hash HMAC is defined for). -/
+theorem hmac_code_eq_rfc (H : Bytes → Bytes) (B : Nat) (k t : Bytes) (hH : ∀ x, (H x).length ≤ B) :
     hmacCode H B k t = hmacRfc H B k t :=
-  hmacCode_eq_rfc H B k t h
+  hmacCode_eq_rfc H B k t hH
 
-/-- **Structural form of the long-key defect:** whatever follows the first block of the key is ignored. -/
-theorem hmac_code_ignores_tail (H : Bytes → Bytes) (B : Nat) (k a b t : Bytes) (h : k.length = B) :
-    hmacCode H B (k ++ a) t = hmacCode H B (k ++ b) t := by
-  rw [hmacCode_tail H B k a t h, hmacCode_tail H B k b t h]
-
-/-- **For every key, the code computes the RFC 2104 HMAC under the key cut to one block** (RFC 2104 hashes a longer
-key instead).  So for `|k| > B` the code agrees with RFC 2104 only if `HMAC(k[0..B)) = HMAC(H(k))`. -/
-theorem hmac_code_is_rfc_of_truncated_key (H : Bytes → Bytes) (B : Nat) (k t : Bytes) :
-    hmacCode H B k t = hmacRfc H B (k.take B) t :=
-  hmacCode_eq_rfc_take H B k t
-
-/-- **Defect (HMAC, keys longer than 64 bytes).**  "HMAC per RFC 2104 for keys of every length" fails as a statement
-about the algorithm: it is not true that for all hash functions, keys and texts the code's HMAC equals RFC 2104
-(witness: a 65-byte key; the identity as "hash" makes the difference visible without evaluating SHA-1).  For SHA-1
-itself the difference is replayed on the implementation against Qt's `QMessageAuthenticationCode` with a 100-byte key
-(`C14:hmac-long-key`). -/
-theorem C14_defect_hmac_long_key :
-    ¬ (∀ (H : Bytes → Bytes) (k t : Bytes), hmacCode H 64 k t = hmacRfc H 64 k t) := by
-  intro hall
-  have h := hall id (List.replicate 65 1) []
-  revert h
-  decide
-
-/-- **Defect (another key is accepted).**  "Using another key makes decoding fail" is false: two different 65-byte keys
-(equal in their first 64 bytes) are interchangeable — every message encoded under one decodes under the other, for
-every hash function.  Consequence of `hmac_code_ignores_tail`; replayed as `C14:wrong-key-accepted`. -/
-theorem C14_defect_wrong_key_accepted :
-    ∃ k k' : Bytes, k ≠ k' ∧ k ≠ [] ∧ k' ≠ [] ∧
-      ∀ (H : Bytes → Bytes), (∀ x, (H x).length = 20) → ∀ (m : Msg), WFMsg m → ∀ (fp : Bool),
-        decode H (encode H m k fp) k' = some (view m) := by
-  refine ⟨List.replicate 64 1 ++ [2], List.replicate 64 1 ++ [3], by decide, by decide, by decide, ?_⟩
-  intro H hH m hm fp
-  rw [encode_congr_key H m _ (List.replicate 64 1 ++ [3]) fp (by decide) (by decide)
-    (fun t => hmac_code_ignores_tail H 64 (List.replicate 64 1) [2] [3] t (by decide))]
-  exact stun_decode_encode H hH m hm _ fp
+/-- the instance used for MESSAGE-INTEGRITY: 20-byte digests, 64-byte block -/
+theorem hmac_code_eq_rfc_sha1 (k t : Bytes) : hmacCode sha1 64 k t = hmacRfc sha1 64 k t :=
+  hmacCode_eq_rfc_20 sha1 sha1_length k t
 
 /-! ## The CRC table extracted from the source -/
 
